@@ -59,52 +59,54 @@ Theorem C63_forwarded_request_shape : forall c m major minor cache nocache hs cn
 Proof. exact forwarded_via. Qed.
 Print Assumptions C63_forwarded_request_shape.
 
-(* "a request whose Via already names this Squid is not forwarded again" — PARTIAL: proved for requests carrying
-   this Squid's entry as Squid writes it, for every method / version / header block, provided the store lookup
-   does not return a STALE entry (missing: stale hits, see C63_own_via_stale_hit_refuted; entries that name the
-   host differently, see the two _refuted theorems below) *)
+(* loopDetected means refused: a request for which the loop test fires is never sent upstream -- every method,
+   HTTP version, store state (none / fresh / STALE since the processExpired repair c010c4f), no-cache or not *)
+Theorem C63_detected_loop_never_forwarded : forall c m major minor cache nocache hs,
+  loop_detected c hs = true ->
+  exists st, handle c m major minor cache nocache hs = Local st.
+Proof. exact loop_not_forwarded. Qed.
+Print Assumptions C63_detected_loop_never_forwarded.
+
+(* the same from the other side: whatever goes upstream had no detected loop *)
+Theorem C63_forwarded_request_had_no_detected_loop : forall c m major minor cache nocache hs cnd mfs via,
+  handle c m major minor cache nocache hs = Forward cnd mfs via -> loop_detected c hs = false.
+Proof. exact forwarded_no_loop. Qed.
+Print Assumptions C63_forwarded_request_had_no_detected_loop.
+
+(* "a request whose Via already names this Squid is not forwarded again" -- PARTIAL for ONE reason only: "names this
+   Squid" is proved for an entry written byte-for-byte as Squid writes it (" <host> (<app>)", any position, any
+   field, any prefix/suffix), for every method / version / store state incl. stale hits. Missing: entries that name
+   the host in another letter case or without / with another comment -- see the two _refuted theorems (F15). *)
 Theorem C63_own_via_not_forwarded_partial : forall c m major minor cache nocache hs h pre post,
   nonul (c_host c) = true -> nonul (c_app c) = true ->
   In h hs -> is_via h = true -> nonul pre = true ->
   h_value h = pre ++ this_cache2 c ++ post ->
-  cache <> CStale \/ nocache = true ->
   exists st, handle c m major minor cache nocache hs = Local st.
 Proof. exact own_via_not_forwarded_partial. Qed.
 Print Assumptions C63_own_via_not_forwarded_partial.
 
-(* the same for a request this Squid forwarded earlier and that came back *)
-Theorem C63_returned_request_not_forwarded_partial : forall c major minor hs0 m' major' minor' cache nocache hs h post,
+(* full strength for what this Squid itself wrote: a request it forwarded earlier (any received headers hs0, any
+   version) that comes back -- extended by later hops, in any Via field -- is never forwarded again *)
+Theorem C63_returned_request_not_forwarded : forall c major minor hs0 m' major' minor' cache nocache hs h post,
   nonul (c_host c) = true -> nonul (c_app c) = true ->
   In h hs -> is_via h = true ->
   h_value h = fwd_via c major minor hs0 ++ post ->
-  cache <> CStale \/ nocache = true ->
   exists st, handle c m' major' minor' cache nocache hs = Local st.
-Proof. exact returned_request_not_forwarded_partial. Qed.
-Print Assumptions C63_returned_request_not_forwarded_partial.
+Proof. exact returned_request_not_forwarded. Qed.
+Print Assumptions C63_returned_request_not_forwarded.
 
-(* the residue is exactly the stale-hit revalidation: a detected loop goes upstream only as a conditional
-   revalidation of a stale entry (never on TRACE, never with no-cache) *)
-Theorem C63_detected_loop_forwarded_only_as_stale_revalidation : forall c m major minor cache nocache hs cnd mfs via,
-  loop_detected c hs = true ->
-  handle c m major minor cache nocache hs = Forward cnd mfs via ->
-  cache = CStale /\ nocache = false /\ cnd = true /\ is_trace m = false.
-Proof. exact loop_forwarded_only_stale. Qed.
-Print Assumptions C63_detected_loop_forwarded_only_as_stale_revalidation.
+(* a conditional revalidation goes upstream only for a stale entry, without no-cache, never on TRACE *)
+Theorem C63_revalidation_only_for_stale_entry : forall c m major minor cache nocache hs mfs via,
+  handle c m major minor cache nocache hs = Forward true mfs via ->
+  cache = CStale /\ nocache = false /\ is_trace m = false.
+Proof. exact revalidation_only_stale. Qed.
+Print Assumptions C63_revalidation_only_for_stale_entry.
 
 (* 403 is produced by loop detection only *)
 Theorem C63_no_loop_no_403 : forall c m major minor cache nocache hs,
   loop_detected c hs = false -> handle c m major minor cache nocache hs <> Local st_forbidden.
 Proof. exact no_loop_no_403. Qed.
 Print Assumptions C63_no_loop_no_403.
-
-(* REFUTED at full strength (known finding F16): stale cached object + exactly this Squid's own Via entry =>
-   loopDetected is set and yet the request is sent upstream (processExpired never looks at the flag).
-   The witness is replayed against the running proxy (corpus/C63/known.jsonl). *)
-Theorem C63_own_via_stale_hit_refuted :
-  exists c hs h, In h hs /\ is_via h = true /\ h_value h = w_11 ++ this_cache c /\ loop_detected c hs = true /\
-    is_local (handle c M_GET 1 1 CStale false hs) = false.
-Proof. exact own_via_stale_hit_refuted. Qed.
-Print Assumptions C63_own_via_stale_hit_refuted.
 
 (* REFUTED (known finding F15): an entry naming this host in another letter case is forwarded on a plain miss *)
 Theorem C63_own_via_other_case_refuted :
@@ -198,8 +200,11 @@ Example C63_example_maxforwards :
   loop_detected w_cfg [mk_mf (dec_N 5)] = false /\ filter is_mf [mk_mf (dec_N 5)] = [mk_mf (dec_N 5)].
 Proof. vm_compute. repeat split; try reflexivity; eexists; reflexivity. Qed.
 
-(* fresh hit with own Via: served from cache, nothing forwarded; stale + no-cache: 403 *)
+(* own Via against the three store states: fresh hit served from cache, stale hit refused (repaired F16),
+   stale + no-cache refused -- nothing forwarded in any of them *)
 Example C63_example_cache_states :
   let hs := [mk_via (w_11 ++ this_cache w_cfg)] in
-  handle w_cfg M_GET 1 1 CFresh false hs = Local st_ok /\ handle w_cfg M_GET 1 1 CStale true hs = Local st_forbidden.
-Proof. vm_compute. split; reflexivity. Qed.
+  handle w_cfg M_GET 1 1 CFresh false hs = Local st_ok /\ handle w_cfg M_GET 1 1 CStale false hs = Local st_forbidden /\
+  handle w_cfg M_HEAD 1 1 CStale false hs = Local st_forbidden /\ handle w_cfg M_GET 1 1 CStale true hs = Local st_forbidden /\
+  (exists mfs via, handle w_cfg M_GET 1 1 CStale false [] = Forward true mfs via).
+Proof. vm_compute. repeat split; try reflexivity. eexists; eexists; reflexivity. Qed.
